@@ -157,6 +157,11 @@ CLAIMED = {
             "fsolve contract every converged load step satisfies these rows within the tolerance; truncation / continuation are explored in C21.",
             "4/C23", "symbolic execution of the real static-solver residual / Jacobian code on z3-term jets + z3 nlsat per scalar obligation; float replay",
             "That the solvers find an equilibrium, Riks' arc-length control and contact branches are outside; Jacobian per basis direction (three seeded directions per system in the quick tier)."),
+    "C24": ("proof", "Model preservation: a copy of an assembled system is re-initialised (System.deepcopy + set_new_initial_state) at a symbolic consistent "
+            "state; every model function of the copy (g, g_dot, W_g, joint angle incl. tracked turns, angle rate, spring energy, contact gaps and slip "
+            "velocities) is proved equal to the original's at an arbitrary second symbolic state; no exception on any path.", "4/C24",
+            "symbolic execution of the real deepcopy / re-assembly code and of the model functions of both systems on z3 terms + z3 per obligation; float replay",
+            "Only the model-preservation clause; trajectory equality needs whole simulations (outside; follows for one-step methods, argued in DESIGN)."),
 }
 
 NOT_APPLICABLE = {
